@@ -51,9 +51,9 @@ def state_class(ctx: Context) -> ClassInfo:
     return ctx.state.state_cls
 
 
-def mutating_imports(ctx: Context) -> Dict[str, FuncInfo]:
-    """Methods of the state class that store data derived from a parameter into
-    self._current / self._history (in place)."""
+def _direct_imports(ctx: Context) -> Dict[str, FuncInfo]:
+    """Methods of the state class that read the exported keys out of a parameter
+    and store into self._current / self._history themselves."""
     sc = state_class(ctx)
     out = {}
     for name, m in sc.methods.items():
@@ -76,6 +76,45 @@ def mutating_imports(ctx: Context) -> Dict[str, FuncInfo]:
         reads_export_keys = any(_str_keys_used(m.node, p) & {"_current", "_history"} for p in params)
         if ({"_current", "_history"} & touched) and (set(params) & srcs) and reads_export_keys:
             out[name] = m
+    return out
+
+
+def _import_helpers(ctx: Context, m: FuncInfo) -> List[Tuple[FuncInfo, str]]:
+    """(function, name of the parameter that carries the state dictionary) for m
+    and for the helpers of the same class that m hands its dictionary to."""
+    params = [p for p in m.params if p != "self"]
+    if not params:
+        return []
+    out = [(m, params[0])]
+    for c in calls_in(m.node):
+        if isinstance(c.func, ast.Attribute) and isinstance(c.func.value, ast.Name) and c.func.value.id in ("self", "instance") or (isinstance(c.func, ast.Attribute) and isinstance(c.func.value, ast.Name)):
+            for t in ctx.res.call_targets(m, c):
+                if isinstance(t, FuncInfo) and t.cls is m.cls and t is not m:
+                    tp = [p for p in t.params if p not in ("self", "cls")]
+                    for i, a in enumerate(c.args):
+                        if isinstance(a, ast.Name) and a.id == params[0] and i < len(tp):
+                            out.append((t, tp[i]))
+    return out
+
+
+def mutating_imports(ctx: Context) -> Dict[str, FuncInfo]:
+    """In-place imports: direct ones plus methods that pass their dictionary on
+    to a direct import of the same object (extracted helpers)."""
+    sc = state_class(ctx)
+    direct = _direct_imports(ctx)
+    out = dict(direct)
+    changed = True
+    while changed:
+        changed = False
+        for name, m in sc.methods.items():
+            if name in out or m.is_classmethod or m.is_staticmethod or name.startswith("__"):
+                continue
+            for (t, p) in _import_helpers(ctx, m)[1:]:
+                if t.name in out:
+                    # the helper must be invoked on self (in-place), not on a fresh instance
+                    if any(isinstance(c.func, ast.Attribute) and c.func.attr == t.name and isinstance(c.func.value, ast.Name) and c.func.value.id == "self" for c in calls_in(m.node)):
+                        out[name] = m
+                        changed = True
     return out
 
 
@@ -426,41 +465,43 @@ def rule_d(ctx: Context, R: Reporter):
     exp, dlit = exporter(ctx)
     exported = {k.value: v for k, v in zip(dlit.keys, dlit.values) if isinstance(k, ast.Constant)}
     imports = mutating_imports(ctx)
-    # exported values read the attribute of the same name
+    # exported values read the attribute of the same name (locals resolved)
+    eflow = flow_of(exp.node)
+    ers = ExprResolver(exp.node)
     for k, v in exported.items():
-        attrs = {dotted(a) for a in ast.walk(v) if isinstance(a, ast.Attribute)}
+        at = eflow.node_containing(v)
+        rv = ers.resolve(v, at) if at is not None else v
+        attrs = {dotted(a) for a in ast.walk(rv) if isinstance(a, ast.Attribute)}
         ok = f"self.{k}" in attrs
         R.check("C08.d", f"exported key '{k}' carries the attribute of the same name", ok, exp, v,
-                msg=f"{exp.short}: key '{k}' is exported from `{unparse(v)}`, not from self.{k}", key=f"export:{k}")
-    # each in-place import stores state_dict[k] into self.k for every exported key
+                msg=f"{exp.short}: key '{k}' is exported from `{unparse(rv)[:60]}`, not from self.{k}", key=f"export:{k}")
+    # each in-place import restores state_dict[k] into self.k for every exported key (possibly through a helper)
     for name, m in imports.items():
-        param = [p for p in m.params if p != "self"][0]
-        consumed = _str_keys_used(m.node, param)
+        if name.startswith("_"):
+            continue  # private helper of an import: checked through the public entry that calls it
+        group = _import_helpers(ctx, m)
         for k in exported:
-            stores = [(a, v, n) for (a, v, n) in _internal_stores(m, "self") if a == k]
             okk = False
-            for (a, v, n) in stores:
-                if v is None:
-                    continue
-                node = flow_of(m.node).node_containing(n)
-                rv = ExprResolver(m.node).resolve(v, node) if node is not None else v
-                for s in ast.walk(rv):
-                    if isinstance(s, ast.Subscript) and isinstance(s.value, ast.Name) and s.value.id == param and isinstance(s.slice, ast.Constant) and s.slice.value == k:
-                        okk = True
-                # value may be built from a loop over state_dict[k].items()
-                if not okk and node is not None:
-                    leaves, visited = expr_leaves(m.node, v, node)
-                    for vid in visited | {node.id}:
-                        vn = flow_of(m.node).cfg.nodes[vid]
-                        src_exprs = []
-                        if vn.kind == "for":
-                            src_exprs.append(vn.stmt.iter)
-                        for s0 in src_exprs:
-                            for s in ast.walk(s0):
-                                if isinstance(s, ast.Subscript) and isinstance(s.value, ast.Name) and s.value.id == param and isinstance(s.slice, ast.Constant) and s.slice.value == k:
-                                    okk = True
+            for (f, param) in group:
+                recv = "self"
+                for (a, v, n) in [(a, v, n) for (a, v, n) in _internal_stores(f, recv) if a == k]:
+                    if v is None:
+                        continue
+                    node = flow_of(f.node).node_containing(n)
+                    rv = ExprResolver(f.node).resolve(v, node) if node is not None else v
+                    for s_ in ast.walk(rv):
+                        if isinstance(s_, ast.Subscript) and isinstance(s_.value, ast.Name) and s_.value.id == param and isinstance(s_.slice, ast.Constant) and s_.slice.value == k:
+                            okk = True
+                    if not okk and node is not None:
+                        leaves, visited = expr_leaves(f.node, v, node)
+                        for vid in visited | {node.id} | set(node.loops):
+                            vn = flow_of(f.node).cfg.nodes[vid]
+                            if vn.kind == "for":
+                                for s_ in ast.walk(vn.stmt.iter):
+                                    if isinstance(s_, ast.Subscript) and isinstance(s_.value, ast.Name) and s_.value.id == param and isinstance(s_.slice, ast.Constant) and s_.slice.value == k:
+                                        okk = True
             R.check("C08.d", f"import `{name}` restores exported key '{k}' into self.{k}", okk, m, m.node,
-                    msg=f"{m.short}: nothing stores {param}['{k}'] into self.{k}: a saved '{k}' is not restored",
+                    msg=f"{m.short}: nothing stores the dictionary's '{k}' into self.{k} (in {[f.short for (f, p) in group]}): a saved '{k}' is not restored",
                     key=f"import:{name}:{k}")
     # the checkpoint writer(s) of the core write every key the loader consumes
     sc = state_class(ctx)
@@ -490,7 +531,8 @@ def rule_d(ctx: Context, R: Reporter):
         # keys consumed by the import it calls
         for name, m in imports.items():
             if any(isinstance(c.func, ast.Attribute) and c.func.attr == name for c in calls_in(fi.node)):
-                consumed |= _str_keys_used(m.node, [p for p in m.params if p != "self"][0])
+                for (f, param) in _import_helpers(ctx, m):
+                    consumed |= _str_keys_used(f.node, param)
         # the matching writer: same class
         w = [k for q, k in written.items() if ctx.prog.functions[q].cls is fi.cls]
         if not w:
